@@ -21,6 +21,7 @@ import (
 	cptv "github.com/TheCacophonyProject/go-cptv"
 	"github.com/TheCacophonyProject/go-cptv/cptvframe"
 	"github.com/TheCacophonyProject/thermal-recorder/recorder"
+	"github.com/TheCacophonyProject/thermal-recorder/throttle"
 	"github.com/TheCacophonyProject/window"
 	yaml "gopkg.in/yaml.v2"
 )
@@ -34,6 +35,7 @@ type vrFrame struct {
 	LastFFCTempC float64 `json:"lastFFCTempC"`
 }
 type vrRecording struct {
+	AdvMs  int       `json:"adv_ms"` // throttled scripts: clock advance before this recording
 	Thresh int       `json:"thresh"`
 	Bg     vrFrame   `json:"bg"`
 	Frames []vrFrame `json:"frames"`
@@ -54,7 +56,18 @@ type vrScript struct {
 	LocTimeMs  int64                  `json:"loctime"`
 	Motion     goconfig.ThermalMotion `json:"motion"`
 	Recordings []vrRecording          `json:"recordings"`
+	Throttle   *struct {
+		BucketS int `json:"bucket"`
+		MinLenS int `json:"minlen"`
+		K       int `json:"k"`        // ms per token
+		FrameMs int `json:"frame_ms"` // clock advance per frame
+	} `json:"throttle"`
 }
+
+type vrClock struct{ now time.Time }
+
+func (c *vrClock) Now() time.Time        { return c.now }
+func (c *vrClock) Sleep(d time.Duration) { c.now = c.now.Add(d) }
 
 func vrPix(g vrFrame, w, h int) [][]int {
 	rnd := rand.New(rand.NewSource(g.Seed))
@@ -194,9 +207,19 @@ func TestVerifRecord(t *testing.T) {
 			conf.Location.Timestamp = time.Unix(0, sc.LocTimeMs*1e6)
 		}
 		cam := vfCam{sc.W, sc.H, sc.Fps}
-		rec := NewCPTVFileRecorder(conf, cam, sc.Brand, sc.Model, sc.Serial, sc.Firmware)
+		fileRec := NewCPTVFileRecorder(conf, cam, sc.Brand, sc.Model, sc.Serial, sc.Firmware)
+		var rec recorder.Recorder = fileRec
+		clk := &vrClock{now: time.Unix(50000, 0)}
+		if sc.Throttle != nil {
+			// the chain main.go builds when the throttler is activated, with a manual clock
+			tc := &goconfig.ThermalThrottler{Activate: true, BucketSize: time.Duration(sc.Throttle.BucketS) * time.Second,
+				MinRefill: time.Duration(sc.Throttle.K*sc.Throttle.MinLenS*sc.Fps) * time.Millisecond}
+			rec = throttle.NewThrottledRecorderWithClock(fileRec, tc, sc.Throttle.MinLenS, nil, clk, cam)
+		}
+		seenFiles := map[string]bool{}
 		expected := []map[string]interface{}{}
 		for _, rc := range sc.Recordings {
+			clk.now = clk.now.Add(time.Duration(rc.AdvMs) * time.Millisecond)
 			bg := cptvframe.NewFrame(cam)
 			bgPix := vrPix(rc.Bg, sc.W, sc.H)
 			for y := range bgPix {
@@ -220,6 +243,10 @@ func TestVerifRecord(t *testing.T) {
 				f.Status = cptvframe.Telemetry{TimeOn: time.Duration(g.TimeOnMs) * time.Millisecond,
 					LastFFCTime: time.Duration(g.LastFFCMs) * time.Millisecond, TempC: g.TempC, LastFFCTempC: g.LastFFCTempC}
 				rec.WriteFrame(f)
+				if sc.Throttle != nil {
+					clk.now = clk.now.Add(time.Duration(sc.Throttle.FrameMs) * time.Millisecond)
+					time.Sleep(1200 * time.Microsecond) // a throttle cut and restart must not reuse the 1 ms file name
+				}
 				frames = append(frames, vrFrameRec(g, pix, false))
 			}
 			rec.StopRecording()
@@ -230,11 +257,33 @@ func TestVerifRecord(t *testing.T) {
 			} else {
 				lt = fmt.Sprint(time.Time{}.UnixNano() / 1e6)
 			}
-			expected = append(expected, map[string]interface{}{
+			exp1 := map[string]interface{}{
 				"device": sc.Device, "deviceid": sc.DeviceID, "brand": sc.Brand, "model": sc.Model, "serial": sc.Serial,
 				"firmware": sc.Firmware, "resx": sc.W, "resy": sc.H, "fps": sc.Fps, "preview": sc.Preview,
 				"lat": f32s(sc.Lat), "long": f32s(sc.Long), "alt": f32s(sc.Alt), "acc": f32s(sc.Acc), "loctime": lt,
-				"motion": vrMotionMap(sc.Motion, rc.Thresh), "hasbg": true, "nframes": len(frames), "frames": frames})
+				"motion": vrMotionMap(sc.Motion, rc.Thresh), "hasbg": true, "nframes": len(frames), "frames": frames}
+			if sc.Throttle == nil {
+				expected = append(expected, exp1)
+				continue
+			}
+			// throttled: whatever files this trigger produced carry ITS background and threshold, and frames of it in order
+			nn, _ := filepath.Glob(filepath.Join(dir, "*.cptv"))
+			sort.Strings(nn)
+			for _, n := range nn {
+				if seenFiles[n] {
+					continue
+				}
+				seenFiles[n] = true
+				dec, err := vrDecode(n)
+				if err != nil {
+					enc.Encode(map[string]interface{}{"ev": "undecodable", "script": si, "file": filepath.Base(n), "err": err.Error()})
+					continue
+				}
+				enc.Encode(map[string]interface{}{"ev": "tfile", "script": si, "expected": exp1, "decoded": dec})
+			}
+		}
+		if sc.Throttle != nil {
+			continue
 		}
 		names, _ := filepath.Glob(filepath.Join(dir, "*.cptv"))
 		sort.Strings(names)
